@@ -1,10 +1,14 @@
 import BoltonsVerif.Common
 import BoltonsVerif.C02.Model
+import BoltonsVerif.C02.LL
 /-
 C02 line protocol.  One line = one whole history over a small "world" of caches
 (cache 0 is constructed by the header, every `copy` appends a cache):
 
-    <lru:0|1> <max> <on_miss: - | a,b | a,b/ke/ve> <nk> <init: - | pairs> <op> <op> ...
+    <cls:0|1|2|3> <max> <on_miss: - | a,b | a,b/ke/ve> <nk> <init: - | pairs> <op> <op> ...
+
+  cls 0 = LRI, 1 = LRU on the ring model (`Model.lean`: `wstep`); 2 = LRI, 3 = LRU on the pointer-level model
+  (`LL.lean`: `hwstep`, the linked list with PREV / NEXT fields and the rotating anchor).  Both print the same text.
 
   on_miss `a,b` is the function k ↦ a*k+b; with `/ke/ve` (key lists `k.k.k` or `-`) it raises
   KeyError for the keys in ke and ValueError for the keys in ve;  keys, values are naturals (value 0 stands for
@@ -19,6 +23,9 @@ C02 line protocol.  One line = one whole history over a small "world" of caches
     l:i          len(c)                   t:i          iteration
     e:i:P:pairs  c == {pairs}             e:i:C:j      c == cache j
     n:i:P:pairs / n:i:C:j   the same with !=
+    u:i:C:j:kw   c.update(cache j, **kw)  o:i:C:j      c |= cache j
+    u:i:F:pairs:kw / o:i:F:pairs   update / |= with an iterable that yields the pairs, then raises
+    e:i:O / n:i:O   c == x / c != x for an x that is not a mapping
 Output: `;`-separated records, first the freshly constructed cache, then one per op:
     <result>@<keys on_miss was called with>|<dump of cache 0>|<dump of cache 1>|...
 -/
@@ -39,14 +46,20 @@ def parsePairs? (s : String) : Option (List (Nat × Nat)) :=
       | _, _ => none
     | _, _ => none) (some [])
 
-def dump (nk : Nat) (c : C) : String :=
+def dumpF (nk : Nat) (d : List (Nat × Nat)) (hit miss soft max : Nat) (om : Bool) : String :=
   " ".intercalate [
-    s!"I{showPairs c.d}", s!"K{showNats (keys c.d)}", s!"V{showNats (c.d.map Prod.snd)}",
-    s!"L{c.d.length}", s!"H{c.hit}", s!"M{c.miss}", s!"S{c.soft}", s!"X{c.max}",
-    s!"O{if c.onMiss.isSome then 1 else 0}",
-    s!"B{showNats ((List.range nk).map fun k => if (lookup k c.d).isSome then 1 else 0)}"]
+    s!"I{showPairs d}", s!"K{showNats (keys d)}", s!"V{showNats (d.map Prod.snd)}",
+    s!"L{d.length}", s!"H{hit}", s!"M{miss}", s!"S{soft}", s!"X{max}",
+    s!"O{if om then 1 else 0}",
+    s!"B{showNats ((List.range nk).map fun k => if (lookup k d).isSome then 1 else 0)}"]
 
-def showOut : Out Nat Nat C → String
+def dump (nk : Nat) (c : C) : String := dumpF nk c.d c.hit c.miss c.soft c.max c.onMiss.isSome
+
+abbrev H := HCache Nat Nat
+
+def dumpH (nk : Nat) (c : H) : String := dumpF nk c.d c.hit c.miss c.soft c.max c.onMiss.isSome
+
+def showOut {X : Type} : Out Nat Nat X → String
   | .none => "-"
   | .val v => s!"v{v}"
   | .keyError => "!KeyError"
@@ -62,14 +75,14 @@ def parseArg? : List String → Option (Arg Nat Nat × List String)
   | "P" :: p :: rest => (parsePairs? p).map fun l => (.pairs l, rest)
   | _ => none
 
-/-- parse one token into a world operation -/
-def parseOp? (w : List C) (tok : String) : Option (WOp Nat Nat) :=
+/-- parse one token into a world operation (`wlen` = number of caches that exist) -/
+def parseOp? (wlen : Nat) (tok : String) : Option (WOp Nat Nat) :=
   match splitOnChar tok ':' with
   | tag :: i :: args =>
     match i.toNat? with
     | none => none
     | some i =>
-      if w.length ≤ i then none else
+      if wlen ≤ i then none else
       let on (op : Op Nat Nat) : Option (WOp Nat Nat) := some (.on i op)
       match tag, args with
       | "s", [k, v] => match k.toNat?, v.toNat? with
@@ -83,6 +96,13 @@ def parseOp? (w : List C) (tok : String) : Option (WOp Nat Nat) :=
       | "u", ["S", kw] => (parsePairs? kw).bind fun kw => on (.update .self kw)
       | "u", ["P", p, kw] => match parsePairs? p, parsePairs? kw with
         | some p, some kw => on (.update (.pairs p) kw) | _, _ => none
+      | "u", ["C", j, kw] => match j.toNat?, parsePairs? kw with
+        | some j, some kw => if wlen ≤ j then none else some (.updc i j kw) | _, _ => none
+      | "o", ["C", j] => j.toNat?.bind fun j => if wlen ≤ j then none else some (.updc i j [])
+      | "u", ["F", p, _] => (parsePairs? p).bind fun p => on (.updateFail p)
+      | "o", ["F", p] => (parsePairs? p).bind fun p => on (.updateFail p)
+      | "e", ["O"] => on .eqOther
+      | "n", ["O"] => on .neOther
       | "o", ["S"] => on (.ior .self)
       | "o", ["P", p] => (parsePairs? p).bind fun p => on (.ior (.pairs p))
       | "p", [k] => k.toNat?.bind fun k => on (.pop k none)
@@ -96,8 +116,8 @@ def parseOp? (w : List C) (tok : String) : Option (WOp Nat Nat) :=
       | "t", [] => on .items
       | "e", ["P", p] => (parsePairs? p).bind fun p => on (.eq (.pairs p))
       | "n", ["P", p] => (parsePairs? p).bind fun p => on (.ne (.pairs p))
-      | "e", ["C", j] => j.toNat?.bind fun j => if w.length ≤ j then none else some (.eqc i j)
-      | "n", ["C", j] => j.toNat?.bind fun j => if w.length ≤ j then none else some (.nec i j)
+      | "e", ["C", j] => j.toNat?.bind fun j => if wlen ≤ j then none else some (.eqc i j)
+      | "n", ["C", j] => j.toNat?.bind fun j => if wlen ≤ j then none else some (.nec i j)
       | _, _ => none
   | _ => none
 
@@ -105,6 +125,7 @@ def target : WOp Nat Nat → Nat
   | .on i _ => i
   | .eqc i _ => i
   | .nec i _ => i
+  | .updc i _ _ => i
 
 def logLen (w : List C) (i : Nat) : Nat := match w[i]? with
   | some c => c.omLog.length
@@ -112,6 +133,13 @@ def logLen (w : List C) (i : Nat) : Nat := match w[i]? with
 
 def record (nk : Nat) (res : String) (calls : List Nat) (w : List C) : String :=
   "|".intercalate (s!"{res}@{showNats calls}" :: w.map (dump nk))
+
+def logLenH (w : List H) (i : Nat) : Nat := match w[i]? with
+  | some c => c.omLog.length
+  | none => 0
+
+def recordH (nk : Nat) (res : String) (calls : List Nat) (w : List H) : String :=
+  "|".intercalate (s!"{res}@{showNats calls}" :: w.map (dumpH nk))
 
 def handle (line : String) : String :=
   match words line with
@@ -132,13 +160,34 @@ def handle (line : String) : String :=
       | _ => none
     match lru.toNat?, mx.toNat?, onMiss?, nk.toNat?, parsePairs? init with
     | some lru, some mx, some onMiss, some nk, some init =>
-      if mx = 0 ∨ 1 < lru then "bad-op" else
+      if mx = 0 ∨ 3 < lru then "bad-op" else
+      if 2 ≤ lru then
+        -- the pointer-level model
+        let h0 : H := (HCache.initP (lru = 3) mx onMiss).setAll init
+        let rec goH (w : List H) (toks : List String) (acc : List String) : Option (List String) :=
+          match toks with
+          | [] => some acc.reverse
+          | t :: ts =>
+            match parseOp? w.length t with
+            | none => none
+            | some op =>
+              let i := target op
+              let before := logLenH w i
+              let (w', o) := hwstep w op
+              let calls := match w'[i]? with
+                | some c => c.omLog.drop before
+                | none => []
+              goH w' ts (recordH nk (showOut o) calls w' :: acc)
+        match goH [h0] toks [recordH nk "-" [] [h0]] with
+        | some outs => ";".intercalate outs
+        | none => "bad-op"
+      else
       let c0 : C := (Cache.initP (lru = 1) mx onMiss).setAll init
       let rec go (w : List C) (toks : List String) (acc : List String) : Option (List String) :=
         match toks with
         | [] => some acc.reverse
         | t :: ts =>
-          match parseOp? w t with
+          match parseOp? w.length t with
           | none => none
           | some op =>
             let i := target op
